@@ -5,7 +5,7 @@
    names for every level of the resolved ancestor chain of the cwd (any length; nearest first), and what
    $DIPPY_CONFIG names - each a regular file (with any read_text outcome), a directory, a special file,
    nothing, a symlink (to any of these, to any depth), a dangling link, or something stat() is denied on. *)
-From DippyV Require Import Base.Str Model.Layers Proofs.DictP Proofs.LayersP Proofs.C10P.
+From DippyV Require Import Base.Str Model.Layers Proofs.DictP Proofs.LayersP Proofs.C10P Proofs.AliasP.
 
 (* ---- nearest project file: the first level of the chain whose .dippy is a regular file --------------------- *)
 (* exact characterisation of _find_project_config for every chain: a hit is preceded only by levels that are
@@ -152,6 +152,52 @@ Theorem C10_default_partial : forall a b, ~ sets_default_ask b ->
 Proof. exact default_partial. Qed.
 Print Assumptions C10_default_partial.
 
+(* ---- identity and aliasing of the layer files --------------------------------------------------------------------
+   The three layer locations may name the SAME file (directly, through a symlink, a hard link, `..`, `~`, a symlinked
+   directory).  load_config keeps no state between the layers, so a file named by two layers contributes its text
+   twice, once at each position.  `oequiv` = what the hook can tell apart: for every matcher the same last match in
+   each rule family, the same target for every alias key, the same log / log_full. *)
+(* a layer named twice counts where it is named LAST; an adjacent repeat is inert *)
+Theorem C10_repeat_last_counts : forall a b, odict a -> odict b -> oequiv (omerge (omerge a b) a) (omerge b a).
+Proof. exact omerge_repeat_last. Qed.
+Print Assumptions C10_repeat_last_counts.
+Theorem C10_repeat_adjacent_inert : forall a b, odict a -> odict b ->
+  oequiv (omerge (omerge a b) b) (omerge a b) /\ oequiv (omerge (omerge a a) b) (omerge a b).
+Proof. exact omerge_repeat_adjacent. Qed.
+Print Assumptions C10_repeat_adjacent_inert.
+(* ... so "do not read the same file twice" is NOT neutral: the first layer named again at the end decides.
+   full statement (false): forall a b, oequiv (omerge (omerge a b) a) (omerge a b) *)
+Theorem C10_repeat_first_refuted : exists a b, odict a /\ odict b /\ ~ oequiv (omerge (omerge a b) a) (omerge a b).
+Proof. exact repeat_first_not_inert. Qed.
+Print Assumptions C10_repeat_first_refuted.
+(* names with one inode are one file: same entry, same text contributed under each name *)
+Theorem C10_same_file : forall fs a b, same_file fs a b ->
+  entry_of fs a = entry_of fs b /\
+  forall s, eff_at (place_of fs a) ConfigErr = Ok (Some (a, s)) -> eff_at (place_of fs b) ConfigErr = Ok (Some (b, s)).
+Proof. exact (fun fs a b H => conj (same_file_entry fs a b H) (fun s => eff_at_same_file fs a b s H)). Qed.
+Print Assumptions C10_same_file.
+(* $DIPPY_CONFIG names the user config: the layers are user;project;user - the user's text again AFTER the project's -
+   which the hook cannot tell from project;user; for every filesystem, every chain, every project layer *)
+Theorem C10_env_names_user : forall (parse : str -> config), (forall s, NoDup (keys (aliases (parse s)))) ->
+  forall fs n e s, n_env n = NAt e -> same_file fs (n_user n) e ->
+  eff_at (place_of fs (n_user n)) ConfigErr = Ok (Some (n_user n, s)) ->
+  forall p, eff_project (map (place_of fs) (n_chain n)) = Ok p ->
+    effective_fs fs n = Ok (Some (n_user n, s), p, Some (e, s)) /\
+    res_map observable (load_config_fs parse fs n) = Ok (ofold parse (Some (n_user n, s), p, Some (e, s))) /\
+    oequiv (ofold parse (Some (n_user n, s), p, Some (e, s))) (ofold parse (None, p, Some (e, s))).
+Proof. exact env_names_user. Qed.
+Print Assumptions C10_env_names_user.
+(* $DIPPY_CONFIG names the nearest project file: user;project;project, which the hook cannot tell from user;project *)
+Theorem C10_env_names_project : forall (parse : str -> config), (forall s, NoDup (keys (aliases (parse s)))) ->
+  forall fs n e u pp s, n_env n = NAt e ->
+  eff_at (place_of fs (n_user n)) ConfigErr = Ok u ->
+  eff_project (map (place_of fs) (n_chain n)) = Ok (Some (pp, s)) ->
+  eff_at (place_of fs e) ConfigErr = Ok (Some (e, s)) ->
+    effective_fs fs n = Ok (u, Some (pp, s), Some (e, s)) /\
+    oequiv (ofold parse (u, Some (pp, s), Some (e, s))) (ofold parse (u, Some (pp, s), None)).
+Proof. exact env_names_project. Qed.
+Print Assumptions C10_env_names_project.
+
 (* ---- non-vacuity ----------------------------------------------------------------------------------------------- *)
 (* the assumptions of C10_concat are satisfiable (by the miniature parser) *)
 Example C10_hyps_inhabited :
@@ -191,3 +237,12 @@ Example C10_example_errors :
   load_config mini_parse (with_env ex_layout (EnvAt (mkPlace $"/e" EDenied))) = ConfigErr /\
   load_config mini_parse (with_env ex_layout (EnvAt (mkPlace $"/e" (EFile RDecode)))) = Crash.
 Proof. vm_compute. repeat split; eauto. Qed.
+(* one inode behind ~/.dippy/config and a symlink named by $DIPPY_CONFIG; the project allows what the user denies:
+   deny, allow, deny - the user's rule is the last match; without the env layer, or with the env layer naming the
+   project file, the project's allow is *)
+Example C10_alias_example :
+  decisions (load_config_fs mini_parse alias_fs (alias_names (NAt $"/links/cfg"))) = Ok [$"deny"; $"allow"; $"deny"] /\
+  decisions (load_config_fs mini_parse alias_fs (alias_names NUnset)) = Ok [$"deny"; $"allow"] /\
+  decisions (load_config_fs mini_parse alias_fs (alias_names (NAt $"/w/p/.dippy"))) = Ok [$"deny"; $"allow"; $"allow"] /\
+  same_file alias_fs $"/h/.dippy/config" $"/links/cfg".
+Proof. exact alias_example. Qed.
